@@ -1,4 +1,1183 @@
+/-
+C34  The transaction queue is ordered and linearizable.
+
+Sequential part: the transcription of `PriorityQueue` over Go's container/heap (slots with
+`index` back-pointers, `txs` map, `currOrder`) refines the list of queued transactions sorted
+by (priority desc, insertion order asc), for every sequence of Push / Pop / Peek /
+RemoveExtrinsic / Exists / Pending / Len; the heap invariant holds in every reachable state.
+Concurrent part: lock tables of PriorityQueue, Pool and TransactionState (re-extracted from the
+sources by the harness on every run) + the monitor theorem of Lib.Monitor.
+-/
 import Gossamer.Model.C34
+import Gossamer.Lib.Heap34
 import Gossamer.Lib.Monitor
 namespace Gossamer.C34
+
+/-- what the spec knows of an item -/
+def key (it : Item) : SItem := { hash := it.hash, priority := it.priority, order := it.order }
+
+theorem before_key (a b : Item) : (key a).before (key b) = less a b := rfl
+
+@[simp] theorem key_idx (x : Item) (v : Int) : key { x with index := v } = key x := rfl
+
+/-! ### predicates on the first `m` slots -/
+
+def IdxOK (a : Arr) (m : Nat) : Prop := ∀ k, k < m → (a.get k).index = (k : Int)
+def Mem (a : Arr) (m : Nat) (x : SItem) : Prop := ∃ k, k < m ∧ key (a.get k) = x
+def Inj (a : Arr) (m : Nat) : Prop :=
+  ∀ k1 k2, k1 < m → k2 < m → (a.get k1).order = (a.get k2).order → k1 = k2
+
+theorem sw_lt {i j k m : Nat} (hi : i < m) (hj : j < m) (hk : k < m) : sw i j k < m := by
+  unfold sw; split
+  · exact hi
+  · split
+    · exact hj
+    · exact hk
+
+theorem sw_sw (i j k : Nat) : sw i j (sw i j k) = k := by
+  unfold sw
+  by_cases h1 : k = j
+  · subst h1
+    by_cases h2 : i = k
+    · simp [h2]
+    · simp [h2]
+  · by_cases h2 : k = i
+    · subst h2; simp [h1]
+    · simp [h1, h2]
+
+theorem key_swap (a : Arr) (i j k : Nat) : key ((swapA a i j).get k) = key (a.get (sw i j k)) := by
+  unfold sw
+  simp only [swapA_get]
+  by_cases h1 : k = j
+  · simp [h1]
+  · by_cases h2 : k = i
+    · subst h2; simp [h1]
+    · simp [h1, h2]
+
+theorem order_swap (a : Arr) (i j k : Nat) : ((swapA a i j).get k).order = (a.get (sw i j k)).order := by
+  have := congrArg SItem.order (key_swap a i j k)
+  exact this
+
+theorem idx_swap {a : Arr} {m i j : Nat} (hi : i < m) (hj : j < m) (h : IdxOK a m) :
+    IdxOK (swapA a i j) m := by
+  intro k hk
+  simp only [swapA_get]
+  by_cases h1 : k = j
+  · simp [h1]
+  · by_cases h2 : k = i
+    · subst h2; simp [h1]
+    · simp [h1, h2, h k hk]
+
+theorem mem_swap {a : Arr} {m i j : Nat} (hi : i < m) (hj : j < m) (x : SItem) :
+    Mem (swapA a i j) m x ↔ Mem a m x := by
+  constructor
+  · rintro ⟨k, hk, hx⟩
+    exact ⟨sw i j k, sw_lt hi hj hk, by rw [← key_swap]; exact hx⟩
+  · rintro ⟨k, hk, hx⟩
+    exact ⟨sw i j k, sw_lt hi hj hk, by rw [key_swap, sw_sw]; exact hx⟩
+
+theorem inj_swap {a : Arr} {m i j : Nat} (hi : i < m) (hj : j < m) (h : Inj a m) :
+    Inj (swapA a i j) m := by
+  intro k1 k2 h1 h2 ho
+  rw [order_swap, order_swap] at ho
+  have := h _ _ (sw_lt hi hj h1) (sw_lt hi hj h2) ho
+  have h3 := congrArg (sw i j) this
+  rwa [sw_sw, sw_sw] at h3
+
+theorem idx_mono {a : Arr} {m n : Nat} (hmn : n ≤ m) (h : IdxOK a m) : IdxOK a n :=
+  fun k hk => h k (by omega)
+theorem inj_mono {a : Arr} {m n : Nat} (hmn : n ≤ m) (h : Inj a m) : Inj a n :=
+  fun k1 k2 h1 h2 => h k1 k2 (by omega) (by omega)
+theorem ord_mono {a : Arr} {m n : Nat} (hmn : n ≤ m) (h : Ord a m) : Ord a n :=
+  fun k h0 hk => h k h0 (by omega)
+
+/-- distinct slots hold distinct keys -/
+theorem key_ne_of_inj {a : Arr} {m k1 k2 : Nat} (h : Inj a m) (h1 : k1 < m) (h2 : k2 < m)
+    (hne : k1 ≠ k2) : key (a.get k1) ≠ key (a.get k2) := by
+  intro hk
+  exact hne (h k1 k2 h1 h2 (congrArg SItem.order hk))
+
+/-- slots `0..n-1` of an array `b` that holds, below `n`, what `Swap(i, n)` leaves there:
+    exactly the old slots `0..n` without slot `i` -/
+theorem mem_drop {a b : Arr} {n i : Nat} (hi : i ≤ n) (hinj : Inj a (n + 1))
+    (hb : ∀ k, k < n → key (b.get k) = key (a.get (sw i n k))) (y : SItem) :
+    Mem b n y ↔ (Mem a (n + 1) y ∧ y ≠ key (a.get i)) := by
+  constructor
+  · rintro ⟨k, hk, hy⟩
+    rw [hb k hk] at hy
+    have hlt : sw i n k < n + 1 := sw_lt (by omega) (by omega) (by omega)
+    have hne : sw i n k ≠ i := by
+      unfold sw
+      have : k ≠ n := by omega
+      simp only [this, if_false]
+      split <;> omega
+    exact ⟨⟨sw i n k, hlt, hy⟩, by rw [← hy]; exact key_ne_of_inj hinj hlt (by omega) hne⟩
+  · rintro ⟨⟨k', hk', hy⟩, hne⟩
+    have hk'i : k' ≠ i := by
+      intro h; subst h; exact hne hy.symm
+    refine ⟨sw i n k', ?_, ?_⟩
+    · unfold sw
+      by_cases h1 : k' = n
+      · simp only [h1, if_true]; omega
+      · simp only [h1, hk'i, if_false]; omega
+    · have hlt : sw i n k' < n := by
+        unfold sw
+        by_cases h1 : k' = n
+        · simp only [h1, if_true]; omega
+        · simp only [h1, hk'i, if_false]; omega
+      rw [hb _ hlt, sw_sw]; exact hy
+
+/-! ### list facts for the spec -/
+
+theorem before_iff (x y : SItem) :
+    x.before y = true ↔ (x.priority > y.priority ∨ (x.priority = y.priority ∧ x.order < y.order)) := by
+  unfold SItem.before
+  by_cases h : x.priority = y.priority
+  · simp [h]
+  · simp only [h, if_false, decide_eq_true_eq]
+    constructor
+    · intro h1; exact Or.inl h1
+    · rintro (h1 | ⟨h1, _⟩)
+      · exact h1
+      · exact h1.elim
+
+theorem before_false_iff (x y : SItem) :
+    x.before y = false ↔ (x.priority < y.priority ∨ (x.priority = y.priority ∧ y.order ≤ x.order)) := by
+  rw [← Bool.not_eq_true, before_iff]; omega
+
+theorem before_irrefl (x : SItem) : x.before x = false := by rw [before_false_iff]; omega
+
+theorem before_trans {x y z : SItem} (h1 : x.before y = true) (h2 : y.before z = true) :
+    x.before z = true := by
+  rw [before_iff] at *; omega
+
+theorem before_total {x y : SItem} (h : x.before y = false) (hne : x.order ≠ y.order) :
+    y.before x = true := by
+  rw [before_false_iff] at h; rw [before_iff]; omega
+
+theorem mem_insertSorted (x y : SItem) (l : List SItem) : y ∈ insertSorted x l ↔ (y = x ∨ y ∈ l) := by
+  induction l with
+  | nil => simp [insertSorted]
+  | cons z zs ih =>
+    unfold insertSorted
+    split
+    · simp
+    · simp only [List.mem_cons, ih]
+      constructor
+      · rintro (h | h | h)
+        · exact Or.inr (Or.inl h)
+        · exact Or.inl h
+        · exact Or.inr (Or.inr h)
+      · rintro (h | h | h)
+        · exact Or.inr (Or.inl h)
+        · exact Or.inl h
+        · exact Or.inr (Or.inr h)
+
+theorem length_insertSorted (x : SItem) (l : List SItem) : (insertSorted x l).length = l.length + 1 := by
+  induction l with
+  | nil => rfl
+  | cons z zs ih =>
+    unfold insertSorted
+    split
+    · rfl
+    · simp [ih]
+
+theorem sorted_insertSorted (x : SItem) (l : List SItem)
+    (hs : l.Pairwise (fun a b => a.before b = true)) (hne : ∀ y ∈ l, x.order ≠ y.order) :
+    (insertSorted x l).Pairwise (fun a b => a.before b = true) := by
+  induction l with
+  | nil => simp [insertSorted]
+  | cons z zs ih =>
+    rw [List.pairwise_cons] at hs
+    unfold insertSorted
+    split
+    · rename_i hb
+      rw [List.pairwise_cons]
+      refine ⟨?_, List.pairwise_cons.mpr hs⟩
+      intro a ha
+      rcases List.mem_cons.mp ha with rfl | ha'
+      · exact hb
+      · exact before_trans hb (hs.1 a ha')
+    · rename_i hb
+      have hb' : x.before z = false := by simpa using hb
+      rw [List.pairwise_cons]
+      refine ⟨?_, ih hs.2 (fun y hy => hne y (List.mem_cons_of_mem _ hy))⟩
+      intro a ha
+      rcases (mem_insertSorted x a zs).mp ha with rfl | ha'
+      · exact before_total hb' (hne z (List.mem_cons_self))
+      · exact hs.1 a ha'
+
+theorem sorted_nodup {l : List SItem} (hs : l.Pairwise (fun a b => a.before b = true)) : l.Nodup := by
+  apply List.Pairwise.imp _ hs
+  intro a b hab heq
+  subst heq
+  rw [before_irrefl] at hab
+  cases hab
+
+theorem length_filter_remove {α : Type} (p : α → Bool) (x : α) : ∀ (l : List α), l.Nodup → x ∈ l →
+    (∀ y ∈ l, p y = false ↔ y = x) → (l.filter p).length + 1 = l.length := by
+  intro l
+  induction l with
+  | nil => intro _ h; cases h
+  | cons z zs ih =>
+    intro hn hx hp
+    rw [List.nodup_cons] at hn
+    by_cases hz : z = x
+    · subst hz
+      have h1 : p z = false := (hp z List.mem_cons_self).mpr rfl
+      have h2 : zs.filter p = zs := by
+        rw [List.filter_eq_self]
+        intro a ha
+        cases hpa : p a with
+        | true => rfl
+        | false =>
+          have := (hp a (List.mem_cons_of_mem _ ha)).mp hpa
+          subst this
+          exact absurd ha hn.1
+      simp [List.filter_cons, h1, h2]
+    · have hx' : x ∈ zs := by
+        rcases List.mem_cons.mp hx with h | h
+        · exact absurd h.symm hz
+        · exact h
+      have h1 : p z = true := by
+        cases hpz : p z with
+        | true => rfl
+        | false => exact absurd ((hp z List.mem_cons_self).mp hpz) hz
+      have := ih hn.2 hx' (fun y hy => hp y (List.mem_cons_of_mem _ hy))
+      simp only [List.filter_cons, h1, if_true, List.length_cons]
+      omega
+
+theorem lookup_filter_ne (m : List (Nat × Nat)) (k k2 : Nat) :
+    (m.filter (·.1 != k2)).lookup k = if k = k2 then none else m.lookup k := by
+  induction m with
+  | nil => simp
+  | cons a as ih =>
+    obtain ⟨a1, a2⟩ := a
+    by_cases h1 : a1 = k2
+    · subst h1
+      have : (List.filter (fun x => x.1 != a1) ((a1, a2) :: as)) = List.filter (fun x => x.1 != a1) as := by
+        simp [List.filter_cons]
+      rw [this, ih]
+      by_cases hk : k = a1
+      · simp [hk]
+      · have hb : (k == a1) = false := by simpa using hk
+        simp [hk, List.lookup_cons, hb]
+    · have : (List.filter (fun x => x.1 != k2) ((a1, a2) :: as)) = (a1, a2) :: List.filter (fun x => x.1 != k2) as := by
+        simp [List.filter_cons, h1]
+      rw [this]
+      by_cases hk : k = a1
+      · subst hk
+        simp [List.lookup_cons, h1]
+      · have hb : (k == a1) = false := by simpa using hk
+        simp only [List.lookup_cons, hb, ih]
+
+/-! ### container/heap operations on a well-formed heap -/
+
+/-- well-formedness of the first `m` slots -/
+structure WF (a : Arr) (m : Nat) : Prop where
+  ord : Ord a m
+  idx : IdxOK a m
+  inj : Inj a m
+
+/-- what is left below `n` once slot `i` of a heap of `n+1` slots has been taken out -/
+def Dropped (a : Arr) (n i : Nat) (c : Arr) : Prop :=
+  IdxOK c n ∧ Inj c n ∧ ∀ y, Mem c n y ↔ (Mem a (n + 1) y ∧ y ≠ key (a.get i))
+
+theorem dropped_swap {a c : Arr} {n i i' j' : Nat} (hi : i' < n) (hj : j' < n) (h : Dropped a n i c) :
+    Dropped a n i (swapA c i' j') :=
+  ⟨idx_swap hi hj h.1, inj_swap hi hj h.2.1, fun y => (mem_swap hi hj y).trans (h.2.2 y)⟩
+
+theorem dropped_init {a : Arr} {n i : Nat} (hw : WF a (n + 1)) (hi : i ≤ n) :
+    Dropped a n i (swapA a i n) := by
+  refine ⟨idx_mono (Nat.le_succ n) (idx_swap (by omega) (by omega) hw.idx),
+    inj_mono (Nat.le_succ n) (inj_swap (by omega) (by omega) hw.inj), ?_⟩
+  intro y
+  exact mem_drop hi hw.inj (fun k _ => key_swap a i n k) y
+
+theorem dropped_last {a : Arr} {n : Nat} (hw : WF a (n + 1)) : Dropped a n n a := by
+  refine ⟨idx_mono (Nat.le_succ n) hw.idx, inj_mono (Nat.le_succ n) hw.inj, ?_⟩
+  intro y
+  apply mem_drop (Nat.le_refl n) hw.inj
+  intro k hk
+  have : sw n n k = k := sw_other (by omega) (by omega)
+  rw [this]
+
+theorem downInv_root {a : Arr} {n : Nat} (hw : WF a (n + 1)) : DownInv (swapA a 0 n) n 0 0 := by
+  refine ⟨Nat.le_refl 0, ?_, ?_⟩
+  · intro k hk0 hkn hpk _
+    rw [le_swap]
+    have h1 : k ≠ 0 := by omega
+    have h2 : k ≠ n := by omega
+    have h3 : par k ≠ n := by have := par_lt hk0; omega
+    rw [sw_other hpk h3, sw_other h1 h2]
+    exact hw.ord k hk0 (by omega)
+  · intro k _ _ _ h; omega
+
+theorem downInv_mid {a : Arr} {n i : Nat} (hw : WF a (n + 1)) (hi : i < n) :
+    DownInv (swapA a i n) n i i := by
+  refine ⟨Nat.le_refl i, ?_, ?_⟩
+  · intro k hk0 hkn hpk hki
+    have hki' : k ≠ i := fun h => hki h rfl
+    rw [le_swap]
+    have h2 : k ≠ n := by omega
+    have h3 : par k ≠ n := by have := par_lt hk0; omega
+    rw [sw_other hpk h3, sw_other hki' h2]
+    exact hw.ord k hk0 (by omega)
+  · intro k hk0 hkn hpk hi0
+    rw [le_swap]
+    have h1 : par i ≠ i := by have := par_lt hi0; omega
+    have h2 : par i ≠ n := by have := par_lt hi0; omega
+    have h3 : k ≠ i := by have := par_lt hk0; omega
+    have h4 : k ≠ n := by omega
+    rw [sw_other h1 h2, sw_other h3 h4]
+    have ha := hw.ord i hi0 (by omega)
+    have hb := hw.ord k hk0 (by omega)
+    rw [hpk] at hb
+    exact le_trans ha hb
+
+/-- `heap.Pop` on a well-formed heap of `n+1` slots -/
+theorem heapPop_spec {a : Arr} {n : Nat} (hw : WF a (n + 1)) :
+    (heapPop ⟨a, n + 1⟩).2.len = n ∧
+    (heapPop ⟨a, n + 1⟩).1.hash = (a.get 0).hash ∧
+    Ord (heapPop ⟨a, n + 1⟩).2.arr n ∧ Dropped a n 0 (heapPop ⟨a, n + 1⟩).2.arr := by
+  have hsub : n + 1 - 1 = n := by omega
+  have hd := down_ord n 0 n 0 (swapA a 0 n) (by omega) (downInv_root hw)
+  refine ⟨?_, ?_, ?_, ?_⟩
+  · simp [heapPop]
+  · simp only [heapPop, hsub]
+    have hfr := down_pres (fun c => c.get n = (swapA a 0 n).get n) n
+      (fun c i j hi hj h => by
+        have h1 : n ≠ i := by omega
+        have h2 : n ≠ j := by omega
+        show (swapA c i j).get n = _
+        rw [swapA_get_other c h1 h2]; exact h) n 0 (swapA a 0 n) rfl
+    rw [hfr, swapA_get_j]
+  · simp only [heapPop, hsub]
+    intro k hk0 hkn
+    exact hd.1 k hk0 hkn (fun h => by omega)
+  · simp only [heapPop, hsub]
+    exact down_pres (Dropped a n 0) n (fun c i j hi hj h => dropped_swap hi hj h) n 0 _
+      (dropped_init hw (Nat.zero_le n))
+
+/-- `heap.Remove(i)` on a well-formed heap of `n+1` slots -/
+theorem heapRemove_spec {a : Arr} {n i : Nat} (hw : WF a (n + 1)) (hi : i ≤ n) :
+    (heapRemove ⟨a, n + 1⟩ i).2.len = n ∧
+    Ord (heapRemove ⟨a, n + 1⟩ i).2.arr n ∧ Dropped a n i (heapRemove ⟨a, n + 1⟩ i).2.arr := by
+  have hsub : n + 1 - 1 = n := by omega
+  refine ⟨by simp [heapRemove], ?_⟩
+  simp only [heapRemove, hsub]
+  by_cases hni : n = i
+  · subst hni
+    simp only [ne_eq, not_true_eq_false, if_false]
+    exact ⟨ord_mono (Nat.le_succ n) hw.ord, dropped_last hw⟩
+  · have hin : i < n := by omega
+    simp only [ne_eq, hni, not_false_eq_true, if_true]
+    have hI := downInv_mid hw hin
+    have hd := down_ord n i n i (swapA a i n) (by omega) hI
+    have hdrop : Dropped a n i (down (swapA a i n) n n i).1 :=
+      down_pres (Dropped a n i) n (fun c i' j' hi' hj' h => dropped_swap hi' hj' h) n i _
+        (dropped_init hw hi)
+    by_cases hmoved : (down (swapA a i n) n n i).2 > i
+    · rw [if_pos hmoved]
+      refine ⟨?_, hdrop⟩
+      intro k hk0 hkn
+      exact hd.1 k hk0 hkn (fun _ => by omega)
+    · rw [if_neg hmoved]
+      have heq : (down (swapA a i n) n n i).2 = i := by have := hd.2.2; omega
+      have hsame := hd.2.1 heq
+      refine ⟨?_, ?_⟩
+      · apply up_ord n i i _ (Nat.le_refl i) hin
+        rw [hsame]
+        refine ⟨?_, hI.2.2⟩
+        intro k hk0 hkn hki
+        have := hd.1 k hk0 hkn (fun h => absurd h hki)
+        rw [hsame] at this
+        exact this
+      · exact up_pres (Dropped a n i) n (fun c i' j' hi' hj' h => dropped_swap hi' hj' h) i i _ hin hdrop
+
+/-- `heap.Push` of an item whose `order` is not in the heap -/
+theorem heapPush_spec {a : Arr} {n : Nat} (hw : WF a n) (it : Item)
+    (hfresh : ∀ k, k < n → (a.get k).order ≠ it.order) :
+    (heapPush ⟨a, n⟩ it).len = n + 1 ∧ WF (heapPush ⟨a, n⟩ it).arr (n + 1) ∧
+    ∀ y, Mem (heapPush ⟨a, n⟩ it).arr (n + 1) y ↔ (y = key it ∨ Mem a n y) := by
+  refine ⟨rfl, ?_, ?_⟩
+  · simp only [heapPush]
+    have hget : ∀ k, (setSlot a n { it with index := (n : Int) }).get k =
+        if k = n then { it with index := (n : Int) } else a.get k := fun k => rfl
+    refine ⟨?_, ?_, ?_⟩
+    · apply up_ord (n + 1) n n _ (Nat.le_refl n) (Nat.lt_succ_self n)
+      refine ⟨?_, ?_⟩
+      · intro k hk0 hkn hkne
+        have h1 : k < n := by omega
+        have h2 : par k ≠ n := by have := par_lt hk0; omega
+        rw [hget, hget, if_neg hkne, if_neg h2]
+        exact hw.ord k hk0 h1
+      · intro k hk0 hkn hpk _
+        have := par_lt hk0; omega
+    · apply up_pres (fun c => IdxOK c (n + 1)) (n + 1) (fun c i j hi hj h => idx_swap hi hj h) n n _
+        (Nat.lt_succ_self n)
+      intro k hk
+      rw [hget]
+      by_cases hkn : k = n
+      · simp [hkn]
+      · rw [if_neg hkn]; exact hw.idx k (by omega)
+    · apply up_pres (fun c => Inj c (n + 1)) (n + 1) (fun c i j hi hj h => inj_swap hi hj h) n n _
+        (Nat.lt_succ_self n)
+      intro k1 k2 h1 h2 ho
+      rw [hget, hget] at ho
+      by_cases hk1 : k1 = n <;> by_cases hk2 : k2 = n
+      · omega
+      · rw [if_pos hk1, if_neg hk2] at ho
+        exact absurd ho.symm (hfresh k2 (by omega))
+      · rw [if_neg hk1, if_pos hk2] at ho
+        exact absurd ho (hfresh k1 (by omega))
+      · rw [if_neg hk1, if_neg hk2] at ho
+        exact hw.inj k1 k2 (by omega) (by omega) ho
+  · simp only [heapPush]
+    have hget : ∀ k, (setSlot a n { it with index := (n : Int) }).get k =
+        if k = n then { it with index := (n : Int) } else a.get k := fun k => rfl
+    apply up_pres (fun c => ∀ y, Mem c (n + 1) y ↔ (y = key it ∨ Mem a n y)) (n + 1)
+      (fun c i j hi hj h y => (mem_swap hi hj y).trans (h y)) n n _ (Nat.lt_succ_self n)
+    intro y
+    constructor
+    · rintro ⟨k, hk, hy⟩
+      rw [hget] at hy
+      by_cases hkn : k = n
+      · rw [if_pos hkn] at hy; exact Or.inl hy.symm
+      · rw [if_neg hkn] at hy; exact Or.inr ⟨k, by omega, hy⟩
+    · rintro (h | ⟨k, hk, hy⟩)
+      · exact ⟨n, Nat.lt_succ_self n, by rw [hget, if_pos rfl, h]; rfl⟩
+      · exact ⟨k, by omega, by rw [hget, if_neg (by omega)]; exact hy⟩
+
+theorem deref_eq {q : PQ} (hidx : IdxOK q.arr q.len) (hinj : Inj q.arr q.len) {k0 : Nat}
+    (hk : k0 < q.len) : derefIndex q (q.arr.get k0).order = (k0 : Int) := by
+  unfold derefIndex PQ.toList
+  cases hf : ((List.range q.len).map q.arr.get).find? (·.order == (q.arr.get k0).order) with
+  | none =>
+    exfalso
+    rw [List.find?_eq_none] at hf
+    exact hf (q.arr.get k0) (List.mem_map.mpr ⟨k0, List.mem_range.mpr hk, rfl⟩) (by simp)
+  | some it =>
+    have h1 := List.find?_some hf
+    have h2 := List.mem_of_find?_eq_some hf
+    obtain ⟨k, hkr, hke⟩ := List.mem_map.mp h2
+    have hkl : k < q.len := List.mem_range.mp hkr
+    subst hke
+    have : k = k0 := hinj k k0 hkl hk (by simpa using h1)
+    subst this
+    exact hidx k hkl
+
+/-! ### the refinement relation (it contains the heap invariant) -/
+
+structure Rel (s : State) (t : Spec) : Prop where
+  wf : WF s.pq.arr s.pq.len
+  next : t.next = s.currOrder
+  sorted : t.items.Pairwise (fun x y => x.before y = true)
+  mem : ∀ x, x ∈ t.items ↔ Mem s.pq.arr s.pq.len x
+  len : t.items.length = s.pq.len
+  fresh : ∀ x ∈ t.items, x.order < t.next
+  hashInj : ∀ x ∈ t.items, ∀ y ∈ t.items, x.hash = y.hash → x = y
+  txs : ∀ h o, s.txs.lookup h = some o ↔ ∃ x ∈ t.items, x.hash = h ∧ x.order = o
+
+theorem rel_init : Rel State.init Spec.init := by
+  refine ⟨⟨?_, ?_, ?_⟩, rfl, ?_, ?_, rfl, ?_, ?_, ?_⟩
+  · intro k _ hk; exact absurd hk (Nat.not_lt_zero k)
+  · intro k hk; exact absurd hk (Nat.not_lt_zero k)
+  · intro k1 _ hk; exact absurd hk (Nat.not_lt_zero k1)
+  · simp [Spec.init]
+  · intro x
+    simp only [Spec.init, State.init, List.not_mem_nil, false_iff]
+    rintro ⟨k, hk, _⟩; exact absurd hk (Nat.not_lt_zero k)
+  · intro x hx; simp [Spec.init] at hx
+  · intro x hx; simp [Spec.init] at hx
+  · intro h o; simp [Spec.init, State.init]
+
+theorem any_hash_iff {s : State} {t : Spec} (hR : Rel s t) (h : Nat) :
+    t.items.any (·.hash == h) = (s.txs.lookup h).isSome := by
+  cases hl : s.txs.lookup h with
+  | none =>
+    simp only [Option.isSome_none]
+    rw [List.any_eq_false]
+    intro x hx hxh
+    have : s.txs.lookup h = some x.order := (hR.txs h x.order).mpr ⟨x, hx, by simpa using hxh, rfl⟩
+    rw [hl] at this; cases this
+  | some o =>
+    simp only [Option.isSome_some]
+    obtain ⟨x, hx, hxh, _⟩ := (hR.txs h o).mp hl
+    rw [List.any_eq_true]
+    exact ⟨x, hx, by simp [hxh]⟩
+
+/-- the item in the root slot is the head of the sorted list -/
+theorem root_is_head {s : State} {t : Spec} (hR : Rel s t) {x : SItem} {r : List SItem}
+    (hit : t.items = x :: r) : key (s.pq.arr.get 0) = x := by
+  have hlen : 0 < s.pq.len := by rw [← hR.len, hit]; simp
+  have hy : key (s.pq.arr.get 0) ∈ t.items := (hR.mem _).mpr ⟨0, hlen, rfl⟩
+  rw [hit] at hy
+  rcases List.mem_cons.mp hy with h | h
+  · exact h
+  · exfalso
+    have hs := hR.sorted
+    rw [hit, List.pairwise_cons] at hs
+    have hb := hs.1 _ h
+    obtain ⟨k, hk, hkx⟩ := (hR.mem x).mp (by rw [hit]; exact List.mem_cons_self)
+    have hle := root_min hR.wf.ord k hk
+    have : (key (s.pq.arr.get k)).before (key (s.pq.arr.get 0)) = false := by rw [before_key]; exact hle
+    rw [hkx] at this
+    rw [this] at hb; cases hb
+
+/-- the relation after slot `i` has been taken out of the heap -/
+theorem rel_remove_slot {s : State} {t : Spec} (hR : Rel s t) {n i : Nat} (hlen : s.pq.len = n + 1)
+    (hi : i ≤ n) (b : Arr) (hord : Ord b n) (hdrop : Dropped s.pq.arr n i b) :
+    Rel { pq := ⟨b, n⟩, currOrder := s.currOrder,
+          txs := s.txs.filter (·.1 != (s.pq.arr.get i).hash) }
+        { items := t.items.filter (·.hash != (s.pq.arr.get i).hash), next := t.next } := by
+  have hx : key (s.pq.arr.get i) ∈ t.items := (hR.mem _).mpr ⟨i, by omega, rfl⟩
+  have hxh : (key (s.pq.arr.get i)).hash = (s.pq.arr.get i).hash := rfl
+  -- among the queued items, having that hash is being that item
+  have hchar : ∀ y ∈ t.items, (y.hash != (s.pq.arr.get i).hash) = false ↔ y = key (s.pq.arr.get i) := by
+    intro y hy
+    constructor
+    · intro h
+      have h' : y.hash = (s.pq.arr.get i).hash := by simpa using h
+      exact hR.hashInj y hy _ hx h'
+    · intro h; rw [h]; simp [key]
+  have hmemf : ∀ y, y ∈ t.items.filter (·.hash != (s.pq.arr.get i).hash) ↔
+      (y ∈ t.items ∧ y ≠ key (s.pq.arr.get i)) := by
+    intro y
+    rw [List.mem_filter]
+    constructor
+    · rintro ⟨h1, h2⟩
+      refine ⟨h1, fun h => ?_⟩
+      have := (hchar y h1).mpr h
+      rw [this] at h2; cases h2
+    · rintro ⟨h1, h2⟩
+      refine ⟨h1, ?_⟩
+      cases hb : (y.hash != (s.pq.arr.get i).hash) with
+      | true => rfl
+      | false => exact absurd ((hchar y h1).mp hb) h2
+  refine ⟨⟨hord, hdrop.1, hdrop.2.1⟩, hR.next, hR.sorted.filter _, ?_, ?_, ?_, ?_, ?_⟩
+  · intro y
+    show y ∈ t.items.filter _ ↔ Mem b n y
+    rw [hmemf, hdrop.2.2 y, hR.mem y, hlen]
+  · show (t.items.filter _).length = n
+    have := length_filter_remove (fun y : SItem => y.hash != (s.pq.arr.get i).hash) _ t.items
+      (sorted_nodup hR.sorted) hx hchar
+    have h2 := hR.len
+    omega
+  · intro y hy
+    exact hR.fresh y (List.mem_filter.mp hy).1
+  · intro y hy z hz
+    exact hR.hashInj y (List.mem_filter.mp hy).1 z (List.mem_filter.mp hz).1
+  · intro h o
+    show (s.txs.filter _).lookup h = some o ↔ _
+    rw [lookup_filter_ne]
+    by_cases hh : h = (s.pq.arr.get i).hash
+    · rw [if_pos hh]
+      constructor
+      · intro hc; cases hc
+      · rintro ⟨y, hy, hyh, _⟩
+        have := (hmemf y).mp hy
+        exact absurd (hR.hashInj y this.1 _ hx (by rw [hyh, hh]; rfl)) this.2
+    · rw [if_neg hh, hR.txs h o]
+      constructor
+      · rintro ⟨y, hy, hyh, hyo⟩
+        refine ⟨y, (hmemf y).mpr ⟨hy, fun he => hh ?_⟩, hyh, hyo⟩
+        rw [← hyh, he]; rfl
+      · rintro ⟨y, hy, hyh, hyo⟩
+        exact ⟨y, ((hmemf y).mp hy).1, hyh, hyo⟩
+
+/-- dropping the head's hash from a sorted list with distinct hashes leaves the tail -/
+theorem filter_head {x : SItem} {r : List SItem}
+    (hs : (x :: r).Pairwise (fun a b => a.before b = true))
+    (hinj : ∀ a ∈ x :: r, ∀ b ∈ x :: r, a.hash = b.hash → a = b) :
+    (x :: r).filter (·.hash != x.hash) = r := by
+  have hnd := sorted_nodup hs
+  rw [List.nodup_cons] at hnd
+  simp only [List.filter_cons, bne_self_eq_false, Bool.false_eq_true, if_false]
+  rw [List.filter_eq_self]
+  intro a ha
+  cases hb : (a.hash != x.hash) with
+  | true => rfl
+  | false =>
+    have : a = x := hinj a (List.mem_cons_of_mem _ ha) x List.mem_cons_self (by simpa using hb)
+    subst this
+    exact absurd ha hnd.1
+
+/-- observable results agree; `Pending` returns the same transactions in heap order on one side
+    and in service order on the other -/
+def OutRel : Out → Out → Prop
+  | .list a, .list b => a.Perm b
+  | x, y => x = y
+
+theorem OutRel.refl_of_eq {a b : Out} (h : a = b) (hl : ∀ l, a ≠ .list l) : OutRel a b := by
+  subst h
+  cases a <;> simp [OutRel]
+
+theorem push_rel {s : State} {t : Spec} (hR : Rel s t) (h p : Nat) :
+    (push s h p).1 = (sstep t (.push h p)).1 ∧ Rel (push s h p).2 (sstep t (.push h p)).2 := by
+  have hany := any_hash_iff hR h
+  unfold push
+  simp only [sstep]
+  cases hl : s.txs.lookup h with
+  | some o =>
+    rw [hl] at hany
+    simp only [Option.isSome_some] at hany
+    rw [if_pos hany]
+    exact ⟨rfl, hR⟩
+  | none =>
+    rw [hl] at hany
+    simp only [Option.isSome_none] at hany
+    rw [if_neg (by rw [hany]; simp)]
+    refine ⟨rfl, ?_⟩
+    obtain ⟨⟨arr, len⟩, co, txs⟩ := s
+    have hnext : t.next = co := hR.next
+    have hwf : WF arr len := hR.wf
+    let it : Item := { hash := h, priority := p, order := co, index := 0 }
+    have hfresh : ∀ k, k < len → (arr.get k).order ≠ it.order := by
+      intro k hk
+      have hm : key (arr.get k) ∈ t.items := (hR.mem _).mpr ⟨k, hk, rfl⟩
+      have := hR.fresh _ hm
+      show (arr.get k).order ≠ co
+      have h2 : (key (arr.get k)).order = (arr.get k).order := rfl
+      omega
+    obtain ⟨_, hwf', hmem'⟩ := heapPush_spec hwf it hfresh
+    have hkey : key it = { hash := h, priority := p, order := t.next } := by
+      simp [key, it, hnext]
+    have hnoh : ∀ y ∈ t.items, y.hash ≠ h := by
+      intro y hy hyh
+      rw [List.any_eq_false] at hany
+      exact hany y hy (by simp [hyh])
+    refine ⟨hwf', ?_, ?_, ?_, ?_, ?_, ?_, ?_⟩
+    · show t.next + 1 = co + 1
+      rw [hnext]
+    · apply sorted_insertSorted _ _ hR.sorted
+      intro y hy
+      have := hR.fresh y hy
+      show t.next ≠ y.order
+      omega
+    · intro y
+      show y ∈ insertSorted _ t.items ↔ Mem (heapPush ⟨arr, len⟩ it).arr (len + 1) y
+      rw [mem_insertSorted, hmem' y, hkey, hR.mem y]
+    · show (insertSorted _ t.items).length = len + 1
+      rw [length_insertSorted, hR.len]
+    · intro y hy
+      show y.order < t.next + 1
+      rcases (mem_insertSorted _ y _).mp hy with rfl | hy'
+      · show t.next < t.next + 1
+        omega
+      · have := hR.fresh y hy'; omega
+    · intro y hy z hz hyz
+      rcases (mem_insertSorted _ y _).mp hy with rfl | hy' <;>
+        rcases (mem_insertSorted _ z _).mp hz with rfl | hz'
+      · rfl
+      · exact absurd hyz.symm (hnoh z hz')
+      · exact absurd hyz (hnoh y hy')
+      · exact hR.hashInj y hy' z hz' hyz
+    · intro h' o
+      show List.lookup h' ((h, co) :: txs) = some o ↔ ∃ x ∈ insertSorted _ t.items, x.hash = h' ∧ x.order = o
+      by_cases hh : h' = h
+      · subst hh
+        have : List.lookup h' ((h', co) :: txs) = some co := by simp [List.lookup_cons]
+        rw [this]
+        constructor
+        · intro hc
+          have : co = o := by simpa using hc
+          subst this
+          exact ⟨_, (mem_insertSorted _ _ _).mpr (Or.inl rfl), rfl, hnext⟩
+        · rintro ⟨y, hy, hyh, hyo⟩
+          rcases (mem_insertSorted _ y _).mp hy with rfl | hy'
+          · simp only at hyo
+            rw [← hyo, hnext]
+          · exact absurd hyh (hnoh y hy')
+      · have hb : (h' == h) = false := by simpa using hh
+        have : List.lookup h' ((h, co) :: txs) = List.lookup h' txs := by simp [List.lookup_cons, hb]
+        rw [this]
+        have htx : List.lookup h' txs = some o ↔ ∃ x ∈ t.items, x.hash = h' ∧ x.order = o := hR.txs h' o
+        rw [htx]
+        constructor
+        · rintro ⟨y, hy, hyh, hyo⟩
+          exact ⟨y, (mem_insertSorted _ _ _).mpr (Or.inr hy), hyh, hyo⟩
+        · rintro ⟨y, hy, hyh, hyo⟩
+          rcases (mem_insertSorted _ y _).mp hy with rfl | hy'
+          · exact absurd hyh.symm hh
+          · exact ⟨y, hy', hyh, hyo⟩
+
+theorem pop_rel {s : State} {t : Spec} (hR : Rel s t) :
+    (pop s).1 = (sstep t .pop).1 ∧ Rel (pop s).2 (sstep t .pop).2 := by
+  obtain ⟨⟨arr, len⟩, co, txs⟩ := s
+  unfold pop
+  simp only [sstep]
+  cases hit : t.items with
+  | nil =>
+    have hl : len = 0 := by have := hR.len; rw [hit] at this; simpa using this.symm
+    subst hl
+    simp only [if_true]
+    exact ⟨trivial, hR⟩
+  | cons x r =>
+    have hl : len = r.length + 1 := by have := hR.len; rw [hit] at this; simpa using this.symm
+    have hne : ¬ (len = 0) := by omega
+    simp only [hne, if_false]
+    subst hl
+    have hwf : WF arr (r.length + 1) := hR.wf
+    obtain ⟨_, hhash, hord, hdrop⟩ := heapPop_spec hwf
+    have hroot : key (arr.get 0) = x := root_is_head hR hit
+    have hxh : (arr.get 0).hash = x.hash := by rw [← hroot]; rfl
+    refine ⟨?_, ?_⟩
+    · show Out.tx (heapPop ⟨arr, r.length + 1⟩).1.hash = Out.tx x.hash
+      rw [hhash, hxh]
+    · have := rel_remove_slot hR (n := r.length) (i := 0) rfl (Nat.zero_le _) _ hord hdrop
+      have hf : t.items.filter (·.hash != (arr.get 0).hash) = r := by
+        rw [hit, hxh]
+        exact filter_head (hit ▸ hR.sorted) (hit ▸ hR.hashInj)
+      simp only at this
+      rw [hf] at this
+      show Rel { pq := (heapPop ⟨arr, r.length + 1⟩).2, currOrder := co,
+                 txs := txs.filter (·.1 != (heapPop ⟨arr, r.length + 1⟩).1.hash) } { items := r, next := t.next }
+      rw [hhash]
+      have hpq : (heapPop ⟨arr, r.length + 1⟩).2 = ⟨(heapPop ⟨arr, r.length + 1⟩).2.arr, r.length⟩ := by
+        simp [heapPop]
+      rw [hpq]
+      exact this
+
+theorem peek_rel {s : State} {t : Spec} (hR : Rel s t) : peek s = (sstep t .peek).1 := by
+  unfold peek
+  simp only [sstep]
+  cases hit : t.items with
+  | nil =>
+    have hl : s.pq.len = 0 := by have := hR.len; rw [hit] at this; simpa using this.symm
+    simp [hl]
+  | cons x r =>
+    have hl : s.pq.len = r.length + 1 := by have := hR.len; rw [hit] at this; simpa using this.symm
+    have hne : ¬ (s.pq.len = 0) := by omega
+    simp only [hne, if_false]
+    have hroot : key (s.pq.arr.get 0) = x := root_is_head hR hit
+    rw [← hroot]; rfl
+
+theorem remove_rel {s : State} {t : Spec} (hR : Rel s t) (h : Nat) :
+    (removeExtrinsic s h).1 = .ok ∧ Rel (removeExtrinsic s h).2 (sstep t (.remove h)).2 := by
+  obtain ⟨⟨arr, len⟩, co, txs⟩ := s
+  unfold removeExtrinsic
+  simp only [sstep]
+  cases hl : List.lookup h txs with
+  | none =>
+    have hany := any_hash_iff hR h
+    have hl' : List.lookup h txs = none := hl
+    simp only [hl', Option.isSome_none] at hany
+    rw [List.any_eq_false] at hany
+    have hf : t.items.filter (·.hash != h) = t.items := by
+      rw [List.filter_eq_self]
+      intro a ha
+      have := hany a ha
+      simpa using this
+    simp only [hf]
+    exact ⟨trivial, hR⟩
+  | some o =>
+    obtain ⟨x, hx, hxh, hxo⟩ := (hR.txs h o).mp hl
+    obtain ⟨k0, hk0, hkx⟩ := (hR.mem x).mp hx
+    have hko : (arr.get k0).order = o := by rw [← hxo, ← hkx]; rfl
+    have hkh : (arr.get k0).hash = h := by rw [← hxh, ← hkx]; rfl
+    have hderef : derefIndex ⟨arr, len⟩ o = (k0 : Int) := by
+      rw [← hko]; exact deref_eq (q := ⟨arr, len⟩) hR.wf.idx hR.wf.inj hk0
+    simp only [hderef]
+    have hk0' : k0 < len := hk0
+    have hnp : ¬ ((k0 : Int) < 0 ∨ (k0 : Int) ≥ (len : Int)) := by omega
+    rw [if_neg hnp]
+    obtain ⟨n, hn⟩ : ∃ n, len = n + 1 := ⟨len - 1, by omega⟩
+    subst hn
+    have hwf : WF arr (n + 1) := hR.wf
+    obtain ⟨_, hord, hdrop⟩ := heapRemove_spec hwf (i := k0) (by omega)
+    refine ⟨rfl, ?_⟩
+    have := rel_remove_slot hR (n := n) (i := k0) rfl (by omega) _ hord hdrop
+    simp only [hkh] at this
+    have hpq : (heapRemove ⟨arr, n + 1⟩ k0).2 = ⟨(heapRemove ⟨arr, n + 1⟩ k0).2.arr, n⟩ := by
+      simp [heapRemove]
+    show Rel { pq := (heapRemove ⟨arr, n + 1⟩ (Int.toNat (k0 : Int))).2, currOrder := co,
+               txs := txs.filter (·.1 != h) } _
+    rw [Int.toNat_natCast, hpq]
+    exact this
+
+theorem pending_rel {s : State} {t : Spec} (hR : Rel s t) :
+    (s.pq.toList.map (·.hash)).Perm (t.items.map (·.hash)) := by
+  have hslot : ∀ k, k < s.pq.len → key (s.pq.arr.get k) ∈ t.items := fun k hk => (hR.mem _).mpr ⟨k, hk, rfl⟩
+  rw [List.perm_ext_iff_of_nodup]
+  · intro h
+    simp only [PQ.toList, List.map_map, List.mem_map, List.mem_range, Function.comp]
+    constructor
+    · rintro ⟨k, hk, hkh⟩
+      exact ⟨_, hslot k hk, hkh⟩
+    · rintro ⟨x, hx, hxh⟩
+      obtain ⟨k, hk, hkx⟩ := (hR.mem x).mp hx
+      exact ⟨k, hk, by rw [← hxh, ← hkx]; rfl⟩
+  · simp only [PQ.toList, List.map_map]
+    rw [List.nodup_iff_pairwise_ne, List.pairwise_map]
+    apply List.Pairwise.imp_of_mem _ List.nodup_range
+    intro k1 k2 h1 h2 hne heq
+    have h1' := List.mem_range.mp h1
+    have h2' := List.mem_range.mp h2
+    have := hR.hashInj _ (hslot k1 h1') _ (hslot k2 h2') heq
+    exact hne (hR.wf.inj k1 k2 h1' h2' (congrArg SItem.order this))
+  · rw [List.nodup_iff_pairwise_ne, List.pairwise_map]
+    apply List.Pairwise.imp_of_mem _ (sorted_nodup hR.sorted)
+    intro a b ha hb hne heq
+    exact hne (hR.hashInj a ha b hb heq)
+
+theorem step_rel {s : State} {t : Spec} (hR : Rel s t) (op : Op) :
+    OutRel (step s op).1 (sstep t op).1 ∧ Rel (step s op).2 (sstep t op).2 := by
+  cases op with
+  | push h p =>
+    have := push_rel hR h p
+    refine ⟨?_, this.2⟩
+    apply OutRel.refl_of_eq this.1
+    intro l hl
+    simp only [step, push] at hl
+    split at hl <;> cases hl
+  | pop =>
+    have := pop_rel hR
+    refine ⟨?_, this.2⟩
+    apply OutRel.refl_of_eq this.1
+    intro l hl
+    simp only [step, pop] at hl
+    split at hl <;> cases hl
+  | peek =>
+    have := peek_rel hR
+    have h2 : (sstep t .peek).2 = t := by
+      simp only [sstep]; split <;> rfl
+    refine ⟨?_, by rw [h2]; exact hR⟩
+    apply OutRel.refl_of_eq this
+    intro l hl
+    simp only [step, peek] at hl
+    split at hl <;> cases hl
+  | remove h =>
+    have := remove_rel hR h
+    refine ⟨?_, this.2⟩
+    show OutRel (removeExtrinsic s h).1 .ok
+    rw [this.1]; simp [OutRel]
+  | exist h =>
+    refine ⟨?_, hR⟩
+    show OutRel (.bool _) (.bool _)
+    rw [any_hash_iff hR h]; simp [OutRel]
+  | pending => exact ⟨pending_rel hR, hR⟩
+  | len =>
+    refine ⟨?_, hR⟩
+    show OutRel (.num _) (.num _)
+    rw [hR.len]; simp [OutRel]
+
+/-- pointwise `OutRel` on result lists of equal length -/
+def OutsRel : List Out → List Out → Prop
+  | [], [] => True
+  | a :: as, b :: bs => OutRel a b ∧ OutsRel as bs
+  | _, _ => False
+
+theorem run_rel (ops : List Op) : ∀ {s : State} {t : Spec}, Rel s t →
+    OutsRel (run s ops).1 (srun t ops).1 ∧ Rel (run s ops).2 (srun t ops).2 := by
+  induction ops with
+  | nil => intro s t hR; exact ⟨trivial, hR⟩
+  | cons op ops ih =>
+    intro s t hR
+    have h := step_rel hR op
+    have ih' := ih h.2
+    exact ⟨⟨h.1, ih'.1⟩, ih'.2⟩
+
+/-! ### the property theorems -/
+
+/-- the state reached from the empty queue by a sequence of operations -/
+def reach (ops : List Op) : State := (run State.init ops).2
+
+/-- **C34_refines.**  For every sequence of Push / Pop / Peek / RemoveExtrinsic / Exists /
+    Pending / Len on a fresh queue, the heap implementation returns what the sorted list returns
+    (Pending: the same transactions, in heap layout order instead of service order), and the
+    final states are related by `Rel` (same queued items, same next insertion number). -/
+theorem C34_refines (ops : List Op) :
+    OutsRel (run State.init ops).1 (srun Spec.init ops).1 ∧
+    Rel (reach ops) (srun Spec.init ops).2 :=
+  run_rel ops rel_init
+
+/-- **C34_heap_inv.**  In every reachable state: the slice is a heap for `Less`; every `index`
+    back-pointer equals the slot position; insertion numbers and hashes are pairwise distinct
+    and below `currOrder`; and the `txs` map is exactly the set of queued items (the pointer
+    stored under a hash designates the slot holding that hash). -/
+theorem C34_heap_inv (ops : List Op) :
+    let s := reach ops
+    Ord s.pq.arr s.pq.len ∧ IdxOK s.pq.arr s.pq.len ∧ Inj s.pq.arr s.pq.len ∧
+    (∀ k1 k2, k1 < s.pq.len → k2 < s.pq.len → (s.pq.arr.get k1).hash = (s.pq.arr.get k2).hash → k1 = k2) ∧
+    (∀ k, k < s.pq.len → (s.pq.arr.get k).order < s.currOrder) ∧
+    (∀ h o, s.txs.lookup h = some o ↔
+      ∃ k, k < s.pq.len ∧ (s.pq.arr.get k).hash = h ∧ (s.pq.arr.get k).order = o) := by
+  intro s
+  have hR := (C34_refines ops).2
+  have hslot : ∀ k, k < s.pq.len → key (s.pq.arr.get k) ∈ (srun Spec.init ops).2.items :=
+    fun k hk => (hR.mem _).mpr ⟨k, hk, rfl⟩
+  refine ⟨hR.wf.ord, hR.wf.idx, hR.wf.inj, ?_, ?_, ?_⟩
+  · intro k1 k2 h1 h2 heq
+    have := hR.hashInj _ (hslot k1 h1) _ (hslot k2 h2) heq
+    exact hR.wf.inj k1 k2 h1 h2 (congrArg SItem.order this)
+  · intro k hk
+    have := hR.fresh _ (hslot k hk)
+    rw [hR.next] at this
+    exact this
+  · intro h o
+    rw [hR.txs h o]
+    constructor
+    · rintro ⟨x, hx, hxh, hxo⟩
+      obtain ⟨k, hk, hkx⟩ := (hR.mem x).mp hx
+      exact ⟨k, hk, by rw [← hxh, ← hkx]; rfl, by rw [← hxo, ← hkx]; rfl⟩
+    · rintro ⟨k, hk, hkh, hko⟩
+      exact ⟨_, hslot k hk, hkh, hko⟩
+
+theorem pop_out {s : State} (hw : WF s.pq.arr s.pq.len) (hne : s.pq.len ≠ 0) :
+    (pop s).1 = .tx (s.pq.arr.get 0).hash := by
+  obtain ⟨⟨arr, len⟩, co, txs⟩ := s
+  obtain ⟨n, hn⟩ : ∃ n, len = n + 1 := ⟨len - 1, by have : len ≠ 0 := hne; omega⟩
+  subst hn
+  have := (heapPop_spec (a := arr) (n := n) hw).2.1
+  unfold pop
+  simp only [Nat.add_one_ne_zero, if_false]
+  rw [this]
+
+/-- **C34_pop_is_max.**  In every reachable non-empty state, Pop yields a queued transaction
+    whose priority is at least the priority of every queued transaction. -/
+theorem C34_pop_is_max (ops : List Op) (hne : (reach ops).pq.len ≠ 0) :
+    let s := reach ops
+    (pop s).1 = .tx (s.pq.arr.get 0).hash ∧
+    ∀ k, k < s.pq.len → (s.pq.arr.get k).priority ≤ (s.pq.arr.get 0).priority := by
+  intro s
+  have hR : Rel s _ := (C34_refines ops).2
+  refine ⟨pop_out hR.wf hne, ?_⟩
+  intro k hk
+  have := root_min (a := s.pq.arr) (n := s.pq.len) hR.wf.ord k hk
+  rw [le_iff] at this
+  omega
+
+/-- **C34_fifo_among_equal.**  Among the queued transactions of the same (highest) priority,
+    Pop yields the one with the smallest insertion number … -/
+theorem C34_fifo_among_equal (ops : List Op) (hne : (reach ops).pq.len ≠ 0) :
+    let s := reach ops
+    (pop s).1 = .tx (s.pq.arr.get 0).hash ∧
+    ∀ k, k < s.pq.len → (s.pq.arr.get k).priority = (s.pq.arr.get 0).priority →
+      (s.pq.arr.get 0).order ≤ (s.pq.arr.get k).order := by
+  intro s
+  have hR : Rel s _ := (C34_refines ops).2
+  refine ⟨pop_out hR.wf hne, ?_⟩
+  intro k hk hp
+  have := root_min (a := s.pq.arr) (n := s.pq.len) hR.wf.ord k hk
+  rw [le_iff] at this
+  omega
+
+/-- … and insertion numbers are insertion order: a successful Push gives the new transaction the
+    number `currOrder`, larger than the number of everything already queued, and increments it. -/
+theorem C34_order_is_insertion (ops : List Op) (h p : Nat)
+    (hnew : (reach ops).txs.lookup h = none) :
+    let s := reach ops
+    (push s h p).1 = .ok ∧ (push s h p).2.currOrder = s.currOrder + 1 ∧
+    (∃ k, k < (push s h p).2.pq.len ∧ (push s h p).2.pq.arr.get k =
+        { hash := h, priority := p, order := s.currOrder, index := (k : Int) }) ∧
+    ∀ k, k < s.pq.len → (s.pq.arr.get k).order < s.currOrder := by
+  intro s
+  have hinv : ∀ k, k < s.pq.len → (s.pq.arr.get k).order < s.currOrder := (C34_heap_inv ops).2.2.2.2.1
+  have hR : Rel s _ := (C34_refines ops).2
+  let it : Item := { hash := h, priority := p, order := s.currOrder, index := 0 }
+  have hpush : push s h p =
+      (.ok, { pq := heapPush s.pq it, currOrder := s.currOrder + 1, txs := (h, s.currOrder) :: s.txs }) := by
+    unfold push
+    have : s.txs.lookup h = none := hnew
+    rw [this]
+  refine ⟨by rw [hpush], by rw [hpush], ?_, hinv⟩
+  rw [hpush]
+  have hfresh : ∀ k, k < s.pq.len → (s.pq.arr.get k).order ≠ it.order := by
+    intro k hk; have := hinv k hk
+    show (s.pq.arr.get k).order ≠ s.currOrder
+    omega
+  have hs := heapPush_spec (a := s.pq.arr) (n := s.pq.len) hR.wf it hfresh
+  have hm := (hs.2.2 (key it)).mpr (Or.inl rfl)
+  obtain ⟨k, hk, hkk⟩ := hm
+  have hidx := hs.2.1.idx k hk
+  refine ⟨k, hk, ?_⟩
+  show (heapPush ⟨s.pq.arr, s.pq.len⟩ it).arr.get k = _
+  generalize (heapPush ⟨s.pq.arr, s.pq.len⟩ it).arr.get k = it' at hkk hidx
+  obtain ⟨ih, ip, io, ii⟩ := it'
+  simp only [key, it, SItem.mk.injEq] at hkk
+  simp only at hidx
+  obtain ⟨h1, h2, h3⟩ := hkk
+  subst h1; subst h2; subst hidx
+  rw [h3]
+
+/-- **C34_dup_refused.**  In every reachable state, pushing a transaction whose hash is queued
+    is refused with ErrTransactionExists and leaves the queue untouched; conversely a hash that
+    is not queued is accepted. -/
+theorem C34_dup_refused (ops : List Op) (h p : Nat) :
+    let s := reach ops
+    ((∃ k, k < s.pq.len ∧ (s.pq.arr.get k).hash = h) → push s h p = (.dup, s)) ∧
+    ((¬ ∃ k, k < s.pq.len ∧ (s.pq.arr.get k).hash = h) → (push s h p).1 = .ok) := by
+  intro s
+  have hinv := (C34_heap_inv ops).2.2.2.2.2
+  constructor
+  · rintro ⟨k, hk, hkh⟩
+    have := (hinv h (s.pq.arr.get k).order).mpr ⟨k, hk, hkh, rfl⟩
+    unfold push
+    rw [this]
+  · intro hno
+    have : s.txs.lookup h = none := by
+      cases hl : s.txs.lookup h with
+      | none => rfl
+      | some o =>
+        obtain ⟨k, hk, hkh, _⟩ := (hinv h o).mp hl
+        exact absurd ⟨k, hk, hkh⟩ hno
+    unfold push
+    rw [this]
+
+/-- **C34_at_most_once.**  A transaction yielded by Pop, or removed by RemoveExtrinsic, is no
+    longer queued afterwards (no slot holds its hash, Exists answers false), so it cannot be
+    yielded or removed a second time unless it is pushed again. -/
+theorem C34_at_most_once (ops : List Op) (h : Nat) :
+    let s := reach ops
+    ((pop s).1 = .tx h →
+      (¬ ∃ k, k < (pop s).2.pq.len ∧ ((pop s).2.pq.arr.get k).hash = h) ∧ (pop s).2.txs.lookup h = none) ∧
+    ((¬ ∃ k, k < (removeExtrinsic s h).2.pq.len ∧ ((removeExtrinsic s h).2.pq.arr.get k).hash = h) ∧
+      (removeExtrinsic s h).2.txs.lookup h = none) := by
+  intro s
+  have hR := (C34_refines ops).2
+  -- a state related to a spec list without hash `h` holds no `h`
+  have gone : ∀ (s' : State) (t' : Spec), Rel s' t' → (∀ x ∈ t'.items, x.hash ≠ h) →
+      (¬ ∃ k, k < s'.pq.len ∧ (s'.pq.arr.get k).hash = h) ∧ s'.txs.lookup h = none := by
+    intro s' t' hR' hno
+    constructor
+    · rintro ⟨k, hk, hkh⟩
+      exact hno _ ((hR'.mem _).mpr ⟨k, hk, rfl⟩) hkh
+    · cases hl : s'.txs.lookup h with
+      | none => rfl
+      | some o =>
+        obtain ⟨x, hx, hxh, _⟩ := (hR'.txs h o).mp hl
+        exact absurd hxh (hno x hx)
+  constructor
+  · intro hpop
+    have hp := pop_rel hR
+    apply gone _ _ hp.2
+    rw [hpop] at hp
+    have h1 := hp.1
+    simp only [sstep] at h1 ⊢
+    cases hit : (srun Spec.init ops).2.items with
+    | nil => rw [hit] at h1; cases h1
+    | cons x r =>
+      rw [hit] at h1
+      simp only at h1 ⊢
+      have hxh : h = x.hash := by simpa using h1
+      have hf := filter_head (hit ▸ hR.sorted) (hit ▸ hR.hashInj)
+      intro y hy
+      rw [← hf] at hy
+      have := (List.mem_filter.mp hy).2
+      rw [hxh]
+      simpa using this
+  · have hp := remove_rel hR h
+    apply gone _ _ hp.2
+    intro y hy
+    simp only [sstep] at hy
+    have := (List.mem_filter.mp hy).2
+    simpa using this
+
+/-- non-vacuity: a concrete run with equal priorities, a duplicate, and removal of a middle slot -/
+example : (run State.init [.push 1 5, .push 2 7, .push 3 5, .push 1 9, .peek, .remove 3, .pop, .pop, .pop, .exist 3]).1 =
+    [.ok, .ok, .ok, .dup, .tx 2, .ok, .tx 2, .tx 1, .none, .bool false] := by decide
+
+/-! ### concurrent part: lock tables + monitor theorem -/
+
+def tablePQ : List Monitor.Method := (Monitor.ofTriples lockTablePQ).getD []
+def tablePool : List Monitor.Method := (Monitor.ofTriples lockTablePool).getD []
+def tableTS : List Monitor.Method := (Monitor.ofTriples lockTableTS).getD []
+
+/-- **C34_race_free.**  Over the lock tables of PriorityQueue, Pool and TransactionState (the
+    harness re-extracts them from the three source files on every run and compares them with
+    the tables below): every method that writes guarded fields holds the exclusive lock and
+    every method that reads them holds a lock, in one critical section; hence no two
+    conflicting methods can be inside their critical sections together. -/
+theorem C34_race_free :
+    (tablePQ.length = 8 ∧ Monitor.disciplined tablePQ = true ∧ Monitor.raceFree tablePQ = true) ∧
+    (tablePool.length = 5 ∧ Monitor.disciplined tablePool = true ∧ Monitor.raceFree tablePool = true) ∧
+    (tableTS.length = 13 ∧ Monitor.disciplined tableTS = true ∧ Monitor.raceFree tableTS = true) := by
+  decide
+
+/-- the tables before the repairs (Exists without lock; Transactions reading the map size
+    outside the lock, i.e. not one critical section) are rejected by the same check -/
+theorem C34_race_free_counterexample :
+    Monitor.raceFree [⟨"Exists", .none, .reads⟩, ⟨"Push", .lock, .writes⟩] = false ∧
+    Monitor.Method.parse? "Transactions" ["split", "none", "reads", "RLock", "reads"]
+      = some ⟨"Transactions", .none, .reads⟩ ∧
+    Monitor.raceFree [⟨"Insert", .lock, .writes⟩, ⟨"Transactions", .none, .reads⟩] = false := by
+  decide
+
+def Op.method : Op → String
+  | .push _ _ => "Push" | .pop => "Pop" | .peek => "Peek" | .remove _ => "RemoveExtrinsic"
+  | .exist _ => "Exists" | .pending => "Pending" | .len => "Len"
+
+def modeOf (name : String) : Monitor.Mode :=
+  match tablePQ.find? (·.name == name) with
+  | some m => m.mode
+  | none => .none
+
+/-- an invocation of a queue method: it takes the lock the table says and runs its body -/
+def invOf (op : Op) : Monitor.Inv State Out :=
+  { mode := modeOf op.method, body := [fun s _ => ((step s op).2, (step s op).1)], init := .ok }
+
+theorem invOf_mode (op : Op) : (invOf op).mode = .lock := by
+  cases op with
+  | push h p => show modeOf "Push" = .lock; decide
+  | pop => show modeOf "Pop" = .lock; decide
+  | peek => show modeOf "Peek" = .lock; decide
+  | remove h => show modeOf "RemoveExtrinsic" = .lock; decide
+  | exist h => show modeOf "Exists" = .lock; decide
+  | pending => show modeOf "Pending" = .lock; decide
+  | len => show modeOf "Len" = .lock; decide
+
+theorem seqRun_invOf (calls : Nat → Op) (order : List Nat) : ∀ s : State,
+    Monitor.seqRun (fun i => invOf (calls i)) s order =
+      ((run s (order.map calls)).2, order.zip (run s (order.map calls)).1) := by
+  induction order with
+  | nil => intro s; rfl
+  | cons i is ih =>
+    intro s
+    simp only [Monitor.seqRun, List.map_cons, run, List.zip_cons_cons]
+    have hb : Monitor.runBody (invOf (calls i)).body s (invOf (calls i)).init =
+        ((step s (calls i)).2, (step s (calls i)).1) := rfl
+    rw [hb, ih]
+
+/-- **C34_linearizable.**  Any number of goroutines invoke Push / Pop / Peek / RemoveExtrinsic /
+    Exists / Pending / Len (`calls i` is the i-th invocation) on a fresh queue; each invocation
+    acquires the lock its method takes according to the lock table, runs, releases; acquisitions
+    obey the mutex rules; the interleaving is otherwise arbitrary.  Whenever no invocation is in
+    progress, the queue state and the result of every invocation are those of the sequential
+    model run in release order, hence (C34_refines) those of the sorted-list specification.
+    Release order extends real-time order. -/
+theorem C34_linearizable (calls : Nat → Op) (es : List Monitor.Ev) (c : Monitor.Cfg State Out)
+    (hs : Monitor.Steps (fun i => invOf (calls i)) (Monitor.Cfg.init State.init) es c)
+    (hq : ∀ j, c.fl j = none) :
+    let order := c.log.reverse.map (·.1)
+    c.shared = reach (order.map calls) ∧
+    c.log.reverse = order.zip (run State.init (order.map calls)).1 ∧
+    OutsRel (run State.init (order.map calls)).1 (srun Spec.init (order.map calls)).1 ∧
+    Rel c.shared (srun Spec.init (order.map calls)).2 := by
+  intro order
+  have hp : Monitor.ReadersPure (fun i => invOf (calls i)) := by
+    intro i hr
+    rw [invOf_mode] at hr
+    cases hr
+  have h := Monitor.linearizable _ hp State.init es c hs hq
+  rw [seqRun_invOf] at h
+  have h1 : (run State.init (order.map calls)).2 = c.shared := congrArg Prod.fst h
+  have h2 : order.zip (run State.init (order.map calls)).1 = c.log.reverse := congrArg Prod.snd h
+  have hr := C34_refines (order.map calls)
+  exact ⟨h1.symm, h2.symm, hr.1, by rw [← h1]; exact hr.2⟩
+
+/-- two invocations are never inside the queue at the same time -/
+theorem C34_mutual_exclusion (calls : Nat → Op) (es : List Monitor.Ev) (c : Monitor.Cfg State Out)
+    (hs : Monitor.Steps (fun i => invOf (calls i)) (Monitor.Cfg.init State.init) es c)
+    (i j : Nat) (hi : c.fl i ≠ none) (hj : c.fl j ≠ none) : i = j := by
+  apply Classical.byContradiction
+  intro hij
+  have hp : Monitor.ReadersPure (fun i => invOf (calls i)) := by
+    intro i hr
+    rw [invOf_mode] at hr
+    cases hr
+  have := (Monitor.no_conflict _ hp State.init es c hs i j hi hj hij).1
+  rw [invOf_mode] at this
+  cases this
+
 end Gossamer.C34
